@@ -72,11 +72,12 @@ META = {
         "technique": "Coq proof (induction on the type universe) over a hand-written model + differential correspondence check against the Go code",
     },
     "C13": {
-        "text": ("Generic half: the same model with explicit crash outcomes and a cost meter: the writer's outcome for every Go value is Ok or Err except "
-                 "exactly Write((*T)(nil)) for the twelve basic T (nil dereference, refuted with witness); the reader's outcome for every type and "
-                 "every byte string is Ok or Err, the loop fuel |input|+1 is never exhausted, the result is a suffix of the input; allocation and "
-                 "iterations are bounded by 2|input|+K(type) for types without reflective slices, and refuted with witnesses for reflective slices "
-                 "(MakeSlice(wire length) before any element is read; zero-size elements iterate without input); a failed Read leaves its variable "
+        "text": ("Generic half: the same model (of the code after the nil-pointer and slice-length fix commits) with explicit crash outcomes and a "
+                 "cost meter: the writer's outcome for EVERY Go value (unsupported kinds, named types, nil pointers at any depth, nil interfaces) is Ok "
+                 "or Err; the reader's outcome for every type and EVERY byte string is Ok or Err, the loop fuel |input|+1 is never exhausted, the "
+                 "result is a suffix of the input; Read with a nil/non-pointer target is an error; allocation + iterations <= kA(type)*|input| + "
+                 "kK(type) for every type without a slice of zero-wire-size elements, hostile length prefixes are rejected before allocating; "
+                 "refuted without that guard (nested slices of zero-size elements: quadratic, witness); a failed Read leaves its variable "
                  "unchanged; ReadInto assigns exactly the variables before the failing one."),
         "design_ref": "DESIGN.md §4 C13, Appendix C",
         "note": "Hostile inputs run in a child process under RLIMIT_AS; child death / timeout / disproportionate allocation are implementation-side monitor hits naming the input.",
